@@ -866,6 +866,27 @@ func (ex *Exec) instr(fr *Frame, b *ssa.BasicBlock, in ssa.Instruction, st *Stat
 			d.closure = &fv
 		}
 		fr.defers = append(fr.defers, d)
+	case *ssa.Send:
+		// channel send: no effect on modelled memory (channels are opaque); single-thread assumption
+		ex.vc.Assumptions["channels are opaque: a send has no modelled effect, a receive yields an arbitrary value (no deadlock reasoning)"] = true
+	case *ssa.Select:
+		ex.vc.Assumptions["channels are opaque: a send has no modelled effect, a receive yields an arbitrary value (no deadlock reasoning)"] = true
+		idx := ex.vc.fresh("selidx", SInt)
+		lo := IntLit(0)
+		if !x.Blocking {
+			lo = IntLit(-1)
+		}
+		ex.vc.assume(And(Le(lo, idx), Lt(idx, IntLit(int64(len(x.States))))))
+		tv := TupleV{E: []Val{Scalar{idx, types.Typ[types.Int]}, Scalar{ex.vc.fresh("selok", SBool), types.Typ[types.Bool]}}}
+		tup := x.Type().(*types.Tuple)
+		for i := 2; i < tup.Len(); i++ {
+			tv.E = append(tv.E, ex.freshVal("recv", tup.At(i).Type(), st))
+		}
+		fr.regs[x] = tv
+	case *ssa.MakeChan:
+		fr.regs[x] = Scalar{ex.allocRef("chan", st), x.Type()}
+	case *ssa.Go:
+		ex.goStmt(fr, &x.Call, st, reach, x.Pos())
 	case *ssa.If:
 		c := ex.scalar(ex.get(fr, x.Cond, st))
 		c = ex.vc.define("c", c)
@@ -1053,4 +1074,61 @@ func hashString(s string) uint32 {
 		h *= 16777619
 	}
 	return h
+}
+
+// goStmt: the effects of the started goroutine are applied (as a havoc of what its contract may assign)
+// at the go statement; nothing its contract ensures is assumed. Sound only for the sequential reading
+// in which the caller does not observe the goroutine's writes before synchronising with it.
+func (ex *Exec) goStmt(fr *Frame, c *ssa.CallCommon, st *State, reach Term, pos token.Pos) {
+	ex.vc.Assumptions["go statements: the goroutine's possible writes (its assigns clause) are havocked at the go statement; interleavings are not explored"] = true
+	fn, ok := c.Value.(*ssa.Function)
+	var ct *Contract
+	if ok {
+		ct = ex.prog.Contracts.Funcs[fn.String()]
+	}
+	if ct == nil || (len(ct.Assigns) == 0 && !ct.Pure) {
+		ex.bump(st, nil, nil)
+		if ex.track != nil {
+			ex.track.all = true
+		}
+		return
+	}
+	vars := map[string]Val{}
+	for i, p := range fn.Params {
+		if i < len(c.Args) {
+			vars[p.Name()] = ex.get(fr, c.Args[i], st)
+		}
+	}
+	env := &SpecEnv{vars: vars, st: st.clone(), lst: st, pkg: fn.Pkg.Pkg, topOld: st.top}
+	env.old = env
+	names := map[string]bool{}
+	byHeap := map[string][]designator{}
+	for _, a := range ct.Assigns {
+		for _, part := range splitTop(a.Text, ',') {
+			part = strings.TrimSpace(part)
+			if part == "nothing" || part == "fresh" {
+				continue
+			}
+			for _, d := range ex.evalDesignator(part, env) {
+				names[d.heap] = true
+				byHeap[d.heap] = append(byHeap[d.heap], d)
+				ex.noteWrite(d.heap, d.root)
+			}
+		}
+	}
+	topPre := st.top
+	ex.bump(st, names, func(name string, old, nh Term) Term {
+		rv := Var("r?", SInt)
+		guard := []Term{Lt(rv, topPre)}
+		for _, d := range byHeap[name] {
+			if d.all {
+				return True
+			}
+			guard = append(guard, Neq(rv, d.root))
+		}
+		return Forall([]Bound{{"r?", SInt}}, Implies(And(guard...), Eq(Select(nh, rv), Select(old, rv))))
+	})
+	nt := ex.vc.fresh("top", SInt)
+	ex.vc.assume(Ge(nt, topPre))
+	st.top = nt
 }
